@@ -219,5 +219,6 @@ func init() {
 		})
 		poolCfgs, podShapes, catalogs = savedP, savedS, savedC
 		c17DRA(r)
+		c17DeviceTracker(r)
 	})
 }
